@@ -973,11 +973,24 @@ class AsyncIteratorQueue(IteratorQueue[_ValueT], AsyncIterableQueue[_ValueT]):
       self, iterator: _MaybeAwaitable[AsyncIterable[_ValueT]]
   ):
     """Iterates through a generator while enqueue its elements."""
-    if isinstance(iterator, Awaitable):
-      iterator = await iterator
-    if not isinstance(iterator, AsyncIterator):
-      iterator = aiter(iterator)
+    # Registers before the first suspension: while the iterator is still being
+    # awaited, the other enqueuers finishing is not the end of the stream.
     self._start_enqueue()
+    try:
+      if isinstance(iterator, Awaitable):
+        iterator = await iterator
+      if not isinstance(iterator, AsyncIterator):
+        iterator = aiter(iterator)
+    except asyncio.CancelledError:
+      self._stop_enqueue()
+      raise
+    except Exception as e:  # pylint: disable=broad-exception-caught
+      # The registered enqueuer cannot even start: this is an enqueue failure.
+      e.add_note(f'Exception during async enqueueing {self.name}')
+      logging.exception('chainable: %s', f'{self.name} enqueue failed.')
+      self._exception = e
+      self._stop_enqueue()
+      raise e
     # Like the sync enqueuer: stops pulling once the queue is stopped or failed.
     while not self.enqueue_done:
       try:
